@@ -2,8 +2,8 @@
    Only the property theorems (closed by `exact`), non-vacuity examples, the
    witnesses of the deviations of the code, and Print Assumptions. *)
 From Coq Require Import List ZArith NArith Bool String.
-From Model Require Import Ddl.
-From Proofs Require Import DdlBase DdlSkeleton DdlRefs DdlJoin DdlState DdlStyle DdlMain DdlChar.
+From Model Require Import Ddl DdlConn.
+From Proofs Require Import DdlBase DdlSkeleton DdlRefs DdlJoin DdlState DdlStyle DdlMain DdlChar DdlConn.
 Import ListNotations.
 Open Scope string_scope.
 Open Scope list_scope.
@@ -146,6 +146,49 @@ Theorem C14_idempotent_drop_flags : forall dc dj dj' db,
   drop_table_full dc true dj' (fst (drop_table_full dc true dj db)) = (fst (drop_table_full dc true dj db), false).
 Proof. exact drop_full_idem. Qed.
 
+(* ================================================================= 5b. the per-call connection= argument *)
+(* Several databases; the classes are bound to `cc`; a call addresses `route cc arg` = `connection or
+   cls._connection`.  ONE CALL (createTable / dropTable / createJoinTables / dropJoinTables / createIndexes /
+   tableExists / clearTable with any flags, or an out-of-band statement): the addressed database makes
+   exactly the step of the single-database machine -- class table, link tables, indexes and the existence
+   tests all there -- with its error flag and answer; every other database is left exactly as it was. *)
+Theorem C14_connection_step : forall cc a b cl w,
+  let c := route cc (c_arg cl) in
+  let r := sch_step (call_decl a b cl) (c_op cl) (get c w) in
+  get c (fst (fst (world_step cc a b cl w))) = fst (fst r)
+  /\ snd (fst (world_step cc a b cl w)) = snd (fst r)
+  /\ snd (world_step cc a b cl w) = snd r
+  /\ forall c', c' <> c -> get c' (fst (fst (world_step cc a b cl w))) = get c' w.
+Proof. exact world_step_spec. Qed.
+(* ANY history of calls: each database ends where the calls addressed to it alone take it *)
+Theorem C14_connection_projection : forall cc a b cls w c,
+  get c (world_run cc a b cls w) = db_run a b (routed_to cc c cls) (get c w).
+Proof. exact world_run_projection. Qed.
+(* ... and a database no call addresses (the classes' own, when every call names another) is untouched *)
+Theorem C14_connection_frame : forall cc a b cls w c,
+  (forall cl, In cl cls -> route cc (c_arg cl) <> c) -> get c (world_run cc a b cls w) = get c w.
+Proof. exact world_run_frame. Qed.
+(* with an argument the binding of the class plays no part *)
+Theorem C14_connection_arg_wins : forall cc cc' a b (cl : call) w, c_arg cl <> None ->
+  world_step cc a b cl w = world_step cc' a b cl w.
+Proof. exact world_step_arg_any_binding. Qed.
+(* drop-if-present / create-if-missing a second time through any connection argument, any flags:
+   no database changes, nothing fails *)
+Theorem C14_connection_idempotent_drop : forall cc a b arg who dj dj' w,
+  let w1 := fst (fst (world_step cc a b {| c_arg := arg; c_who := who; c_op := ODrop true dj |} w)) in
+  world_step cc a b {| c_arg := arg; c_who := who; c_op := ODrop true dj' |} w1 = (w1, false, None).
+Proof. exact world_drop_idem. Qed.
+Theorem C14_connection_idempotent_create : forall cc (a b : decl) arg (who : bool) cj ci cj' ci' w,
+  case_clash_free (get (route cc arg) w) (table_of (if who then a else b)) = true ->
+  let w1 := fst (fst (world_step cc a b {| c_arg := arg; c_who := who; c_op := OCreate true cj ci |} w)) in
+  world_step cc a b {| c_arg := arg; c_who := who; c_op := OCreate true cj' ci' |} w1 = (w1, false, None).
+Proof. exact world_create_idem. Qed.
+(* tableExists(connection=...) answers for the addressed database and changes nothing *)
+Theorem C14_connection_exists : forall cc (a b : decl) arg (who : bool) w,
+  world_step cc a b {| c_arg := arg; c_who := who; c_op := OExists |} w
+  = (w, false, Some (table_exists (get (route cc arg) w) (table_of (if who then a else b)))).
+Proof. exact world_exists. Qed.
+
 (* ANY sequence of addColumn/delColumn(changeSchema=True) -- steps the engine refuses and steps the
    class refuses (a name that collides with `id`, a column, a method, an index; an unknown column)
    included, the latter also with changeSchema=False (ops_in_scope) -- from a state where class and
@@ -270,6 +313,22 @@ Example C14_idempotent_decoy_example :
   /\ map t_name (db_tables (fst (drop_table_op w_evo true (fst (create_table_op w_evo true ex_decoy_db))))) = [s2l "vc2evo"].
 Proof. repeat split; vm_compute; reflexivity. Qed.
 
+(* the classes are bound to Home (which holds their tables); a second database is provisioned and torn
+   down through connection=Second: link table created and removed THERE, Home untouched *)
+Definition cx_a := with_joins (mkdecl "VcAa" []) [ex_ja].
+Definition cx_b := with_joins (mkdecl "VcBb" []) [ex_jb].
+Definition cx_call (arg : option connid) (who : bool) (op : sch_op) : call := {| c_arg := arg; c_who := who; c_op := op |}.
+Example C14_connection_example :
+  let w0 := {| w_home := empty_db; w_second := empty_db |} in
+  let setup := [cx_call None true (OCreate false true true); cx_call None false (OCreate false true true)] in
+  let prov := [cx_call (Some Second) true (OCreate false true true); cx_call (Some Second) false (OCreate false true true)] in
+  let tear := [cx_call (Some Second) false (ODrop true true); cx_call (Some Second) true (ODrop true true)] in
+  let names w c := map t_name (db_tables (get c w)) in
+  names (world_run Home cx_a cx_b (setup ++ prov) w0) Second = [s2l "vc_aa"; s2l "vc_aa_vc_bb"; s2l "vc_bb"]
+  /\ names (world_run Home cx_a cx_b (setup ++ prov ++ tear) w0) Second = []
+  /\ names (world_run Home cx_a cx_b (setup ++ prov ++ tear) w0) Home = [s2l "vc_aa"; s2l "vc_aa_vc_bb"; s2l "vc_bb"].
+Proof. repeat split; vm_compute; reflexivity. Qed.
+
 Print Assumptions C14_skeleton_sqlite.
 Print Assumptions C14_skeleton_postgres.
 Print Assumptions C14_skeleton_firebird.
@@ -299,6 +358,13 @@ Print Assumptions C14_idempotent_create_state.
 Print Assumptions C14_idempotent_drop.
 Print Assumptions C14_idempotent_create_flags.
 Print Assumptions C14_idempotent_drop_flags.
+Print Assumptions C14_connection_step.
+Print Assumptions C14_connection_projection.
+Print Assumptions C14_connection_frame.
+Print Assumptions C14_connection_arg_wins.
+Print Assumptions C14_connection_idempotent_drop.
+Print Assumptions C14_connection_idempotent_create.
+Print Assumptions C14_connection_exists.
 Print Assumptions C14_evolution_inv.
 Print Assumptions C14_evolution_refused.
 Print Assumptions C14_evolution_index_refuted.
